@@ -216,6 +216,12 @@ def replay_case(arg):
                     if (d_ + 1) not in rec['hdims']:
                         pmap[nm] = [x for x in rec['names'][rec['nbottom']:] if x.startswith('Pooled ')][
                             sum(1 for q in range(d_) if (q + 1) not in rec['hdims'])]
+                # a map whose values are also keys: two individual-level parameters read each other's column (a map is
+                # applied to all names AT ONCE, not entry by entry)
+                hnames = [nm for d_, nm in enumerate(ll_names) if (d_ + 1) in rec['hdims']]
+                if len(hnames) >= 2 and int(key, 16) % 2 == 0:
+                    pmap[hnames[0]], pmap[hnames[1]] = hnames[1], hnames[0]
+                    cnt['swap_maps'] = 1
                 tagm = 'iorb' + key
                 pm = chi.PredictiveModel(probes.ProbeMech(rec['ndim'] - 1, 1, tag=tagm), chi.GaussianErrorModel())
                 ppm = chi.PosteriorPredictiveModel(pm, ds, param_map=pmap)
@@ -236,7 +242,7 @@ def replay_case(arg):
                         for d_, c in enumerate(codes):
                             k = c % 1000
                             cell = rec['cells'][k - 1]
-                            want = ll_names[d_] if (d_ + 1) in rec['hdims'] else pmap[ll_names[d_]]
+                            want = pmap.get(ll_names[d_], ll_names[d_])
                             if cell[0] != want or (cell[1] not in (0, i + 1)):
                                 fail('ReadBack', 'wrong_column', dict(individual=uid, dim=d_ + 1, cell=cell, want=want))
                                 break
@@ -249,7 +255,7 @@ def replay_case(arg):
                         for d in range(3):
                             vec = []
                             for d_, nm in enumerate(ll_names):
-                                kk = cells[(nm, 1)] if (d_ + 1) in rec['hdims'] else cells[(pmap[nm], 0)]
+                                kk = cells[(pmap.get(nm, nm), 1)] if (d_ + 1) in rec['hdims'] else cells[(pmap[nm], 0)]
                                 vec.append(raw[c, d, kk])
                             expv = lls[0].compute_pointwise_ll(np.array(vec))
                             if not np.allclose(np.asarray(pw.values[c, d], dtype=float), expv, equal_nan=True):
